@@ -6,7 +6,7 @@ use crate::refmodel::*;
 use crate::runner::*;
 use crate::tape::Tape;
 
-pub const RULE: &str = "unsigned/signed vint encoders for every width 1..8 and the default width, decoders on byte slices of length 0..9, \
+pub const RULE: &str = "unsigned/signed vint encoders for every width 1..8 and the default width (the unsigned ones through every implementation of the Vint trait — u64, u32, u16, u8 — that can hold the value), decoders on byte slices of length 0..9, \
 and the well-formed-id predicate, each compared with an independent codec on u128/i128. Exhaustive blocks (values < 2^23 quick / 2^28 thorough, \
 |v| < 2^22 / 2^27 signed, all slices of length <= 3, ids < 2^24), the boundary lattice (±2 around every 2^(7k), 2^(7k-1), 2^(8k), 2^56, 2^63, 2^64-1) \
 and proptest-generated random values/slices. Non-trivial: multi-byte encodings (value >= 2^7 or |v| >= 2^6), non-empty slices, ids >= 0x80; distinct by value (enumerations are distinct by construction).";
